@@ -451,7 +451,7 @@ static void run_cfg(rng& g, char const* ename, E const& engine, int variant, int
         {
             std::vector<std::size_t> rest;
             if (k <= n) rest.assign(calls.begin() + (long) k, calls.end());
-            if (rl && k < n && g.below(2)) rest[0] += 7; // a different continuation after the rollback
+            if (k < n && (g.below(2) || (!rl && k + 2 <= n))) rest[0] += 7; // a different continuation after the rollback (in memory as well)
             s.rollback_history(calls, k, rl != 0, rest);
         }
     // two rollbacks in a row: to j, then to a smaller (or the same) k
